@@ -613,66 +613,144 @@ def check_mirror(ctx, R):
 
 
 # ----------------------------------------------------------------------------- ACCRUE-DECAY-SIG / DECAY-UNREACHABLE
+def _expand(r, text, levels=2):
+    """substitute call symbols C<k> by the text of the call they name"""
+    import re
+    for _ in range(levels):
+        text = re.sub(r'\bC(\d+)\b', lambda m: src(r.calls[int(m.group(1))][0]).replace(' ', ''), text)
+    return text
+
+
 def check_accrue_decay(ctx, R):
+    """decided on the let-normal form of every path (names of locals, temporaries, early `continue`, the way the returned
+    dict is built are transparent):
+      diff-once          diff(<stored history>, <batch>, window=window) is called exactly once
+      once-per-chunk     agg.on_new at most once (exactly once iff a batch is present); agg.on_old exactly once per non-empty
+                         element of diff(...)[1] and only inside the loop over it; the size twin in lock-step
+      state-threaded     on_new receives the stored/initial state, on_old the state on_new returned
+      stores-new-history the returned accumulator carries diff(...)[0] and the last state"""
+    from ..symexpr import SymEval, nf
     M = ctx.model
     for name, twin in (('window_accumulator', None), ('windowed_groupby_accumulator', 'size')):
         fn = M.function(AGG, name)
         con = ctx.construct(fn)
-        bad, n = None, 0
-        detail = ''
-        for st, status in ctx.paths(fn, None):
-            evs = st.events
-            if is_failure(evs, status) or status != 'return':
+        paths = [r for r in SymEval(M, None, name_calls=True).run(fn) if not r.raised]
+        bad = {}
+
+        def fail(tok, msg):
+            bad.setdefault(tok, msg)
+        n = 0
+        for r in paths:
+            if r.ret is None:
                 continue
             n += 1
-            news = [i for i, e in enumerate(evs) if e.kind == 'CALL' and e.a == 'agg.on_new']
-            if len(news) > 1:
-                bad, detail = evs, 'agg.on_new is applied %d times in one call' % len(news)
-            newcond = next((c.b for c in evs if c.kind == 'COND' and c.a.replace(' ', '') in ('newisNone',)), None)
-            if newcond is False and len(news) != 1:
-                bad, detail = evs, 'a batch is present but agg.on_new is not applied'
-            its = [i for i, e in enumerate(evs) if e.kind == 'ITER' and e.x['node'].__class__ is ast.For
-                   and 'old' in src(e.x['node'].iter)]
-            in_loop = set()
-            bounds = its + [len(evs)]
-            for a, b in zip(bounds, bounds[1:]):
-                seg = evs[a:b]
-                end = next((k for k, e in enumerate(seg) if e.kind in ('LOOPEXIT', 'LOOPCUT') and e.x and e.x.get('node') is seg[0].x['node']), len(seg))
-                seg = seg[:end]
-                olds = [e for e in seg if e.kind == 'CALL' and e.a == 'agg.on_old']
-                for e in olds:
-                    in_loop.add(id(e))
-                nonempty = next((c.b for c in seg if c.kind == 'COND' and c.a.startswith('len(')), None)
-                want = 1 if nonempty in (True, None) else 0
-                if len(olds) != want:
-                    bad, detail = evs, 'agg.on_old is applied %d times for one decayed chunk (expected %d)' % (len(olds), want)
-                if twin:
-                    t_old = [e for e in seg if e.kind == 'CALL' and e.a == twin + '.on_old']
-                    if len(t_old) != len(olds):
-                        bad, detail = evs, 'the size-state twin is not decayed in lock-step'
-            stray = [e for e in evs if e.kind == 'CALL' and e.a == 'agg.on_old' and id(e) not in in_loop]
-            if stray:
-                bad, detail = evs, 'agg.on_old is applied outside the loop over decayed chunks'
-            if twin:
-                t_new = [e for e in evs if e.kind == 'CALL' and e.a == twin + '.on_new']
-                if len(t_new) != len(news):
-                    bad, detail = evs, 'the size-state twin is not accrued in lock-step'
-        R.ob('ACCRUE-DECAY-SIG', con, 'once-per-chunk', bad is None and n > 0, detail, ctx.where(fn, fn.node.lineno),
-             fmt_path(bad) if bad else None, n)
-        # the diff is applied once and its `old` is what the decay loop iterates
-        diffs = [c for c in own_nodes(fn.node) if isinstance(c, ast.Call) and src(c.func) == 'diff']
-        R.ob('ACCRUE-DECAY-SIG', con, 'diff-once', len(diffs) == 1 and src(diffs[0].args[0]) == 'dfs',
-             'diff(dfs, new, ...) is not applied exactly once to the stored history', ctx.where(fn, fn.node.lineno))
-        # the new history and state are what is stored in the returned accumulator
-        rets = [r for r in own_nodes(fn.node) if isinstance(r, ast.Return)]
-        d = [s for s in own_nodes(fn.node) if isinstance(s, ast.Assign) and isinstance(s.value, ast.Dict)
-             and isinstance(s.targets[0], ast.Name) and s.targets[0].id == 'acc2']
-        okd = False
-        if d:
-            kv = {src(k).strip("'\""): src(v) for k, v in zip(d[0].value.keys, d[0].value.values)}
-            okd = kv.get('dfs') == 'dfs' and kv.get('state') == 'state' and (twin is None or kv.get('size-state') == 'size_state')
-        R.ob('ACCRUE-DECAY-SIG', con, 'stores-new-history', okd and bool(rets),
-             'the returned accumulator does not carry the new history / state', ctx.where(fn, d[0].lineno if d else fn.node.lineno))
+            calls = [(k, c, l) for k, (c, s_, l) in enumerate(r.calls) if isinstance(c, ast.Call)]
+            diffs = [(k, c, l) for k, c, l in calls if nf(c.func) == 'diff']
+            if len(diffs) != 1:
+                fail('diff-once', 'diff is applied %d times on a path' % len(diffs))
+                continue
+            dk, dc, dl = diffs[0]
+            first = any(c == 'acc is None' and o for c, o in r.conds) or any(c == 'acc is not None' and not o for c, o in r.conds)
+            H = nf(dc.args[0]) if dc.args else ''
+            if H != ('[]' if first else "acc['dfs']") or dl or not any(k.arg == 'window' and nf(k.value) == 'window' for k in dc.keywords):
+                fail('diff-once', 'diff is applied to %s, not to the stored history with window=window' % (H or '?'))
+            batch = nf(dc.args[1]) if len(dc.args) > 1 else '?'
+            D = 'C%d' % dk
+            # the decay loop
+            def decay_loop(l):
+                if not l:
+                    return None
+                it = l[-1][0].replace(' ', '')
+                if it == D + '[1]':
+                    return 'ELEM(%s[1])' % D, None
+                m_ = it[1:] if it.startswith('C') else ''
+                if m_.isdigit():
+                    zc = r.calls[int(m_)][0]
+                    if isinstance(zc, ast.Call) and nf(zc.func) == 'zip' and zc.args and nf(zc.args[0]) == D + '[1]':
+                        return 'FIRST(ELEM(%s))' % it, 'ELEM(%s)[1]' % it
+                return None
+            for who, key in (('agg', 'state'),) + (((None, 'size-state'),) if twin else ()):
+                def mine(c, meth):
+                    f = c.func
+                    if not (isinstance(f, ast.Attribute) and f.attr == meth):
+                        return False
+                    return (nf(f.value) == 'agg') == (who == 'agg')
+                news = [(k, c, l) for k, c, l in calls if mine(c, 'on_new')]
+                olds = [(k, c, l) for k, c, l in calls if mine(c, 'on_old')]
+                label = 'agg' if who == 'agg' else 'the size twin'
+                present = next((o for c, o in r.conds if c.replace(' ', '') == batch + 'isnotNone'), None)
+                if present is None:
+                    present = next((not o for c, o in r.conds if c.replace(' ', '') == batch + 'isNone'), None)
+                if len(news) > 1 or any(l for k, c, l in news):
+                    fail('once-per-chunk', '%s.on_new is applied %d times in one call' % (label, len(news)))
+                if present is True and len(news) != 1:
+                    fail('once-per-chunk', 'a batch is present but %s.on_new is not applied' % label)
+                if present is False and news:
+                    fail('once-per-chunk', '%s.on_new is applied although there is no batch' % label)
+                # state threading
+                cur = None
+                if news:
+                    k, c, l = news[0]
+                    a0 = nf(c.args[0]) if c.args else '?'
+                    want0 = ("acc['%s']" % key) if not first else None
+                    if not first and a0 != want0:
+                        fail('state-threaded', '%s.on_new receives %s, not the stored state' % (label, a0))
+                    if first and '.initial(' not in _expand(r, a0):
+                        fail('state-threaded', '%s.on_new receives %s on the first batch, not <aggregation>.initial(...)' % (label, a0))
+                    if len(c.args) < 2 or nf(c.args[1]) != batch:
+                        fail('state-threaded', '%s.on_new is not applied to the batch that was added to the window' % label)
+                    cur = 'FIRST(C%d)' % k
+                loops_seen = {}
+                for k, c, l in olds:
+                    dl_ = decay_loop(l)
+                    if dl_ is None:
+                        fail('once-per-chunk', '%s.on_old is applied outside the loop over the decayed chunks' % label)
+                        continue
+                    loops_seen.setdefault(l[-1], []).append((k, c, dl_))
+                for lk, lst in loops_seen.items():
+                    if len(lst) != 1:
+                        fail('once-per-chunk', '%s.on_old is applied %d times for one decayed chunk (expected 1)' % (label, len(lst)))
+                    k, c, (chunk, og) = lst[0]
+                    a0 = nf(c.args[0]) if c.args else '?'
+                    if cur is not None and a0 != cur:
+                        fail('state-threaded', '%s.on_old receives %s, not the state %s.on_new returned' % (label, a0, label))
+                    if cur is None and not first and a0 != "acc['%s']" % key:
+                        fail('state-threaded', '%s.on_old receives %s, not the stored state' % (label, a0))
+                    if len(c.args) < 2 or nf(c.args[1]) != chunk:
+                        fail('once-per-chunk', '%s.on_old is not applied to the decayed chunk' % label)
+                    if og is not None and not any(kw.arg == 'grouper' and nf(kw.value) == og for kw in c.keywords):
+                        fail('once-per-chunk', '%s.on_old does not receive the grouper aligned with the decayed chunk' % label)
+                    cur = 'FIRST(C%d)' % k
+                # non-empty chunk <=> decayed
+                for c_, o in r.conds:
+                    t = _expand(r, c_.replace(' ', ''), 1)
+                    neg = t.startswith('not')
+                    core = t[3:].strip('()') if neg else t
+                    if core.startswith('len(') and ('ELEM(%s' % D in _expand(r, core, 1) or 'ELEM(C' in core):
+                        nonempty = (not o) if neg else o
+                        if nonempty and not olds:
+                            fail('once-per-chunk', 'a non-empty decayed chunk is not passed to %s.on_old' % label)
+                        if not nonempty and olds:
+                            fail('once-per-chunk', '%s.on_old is applied to an empty chunk' % label)
+                # the returned accumulator
+                ret = r.ret
+                acc_out = ret.elts[0] if isinstance(ret, ast.Tuple) and ret.elts else None
+                if not isinstance(acc_out, ast.Dict):
+                    fail('stores-new-history', 'the returned accumulator is not a dict built in this function')
+                    continue
+                kv = {k_.value: v for k_, v in zip(acc_out.keys, acc_out.values) if isinstance(k_, ast.Constant)}
+                if nf(kv.get('dfs')) != 'FIRST(%s)' % D:
+                    fail('stores-new-history', "the returned accumulator's history is %s, not the one diff returned" % nf(kv.get('dfs')))
+                want = cur if cur is not None else ("acc['%s']" % key if not first else None)
+                got = nf(kv.get(key))
+                if want is not None and not any(want in g for g in (got, _expand(r, got, 1), _expand(r, got, 2))):
+                    fail('stores-new-history', "the returned accumulator's %r is %s, not the last state (%s)" % (key, nf(kv.get(key))[:60], want))
+                if want is None and '.initial(' not in _expand(r, got, 2):
+                    fail('stores-new-history', "the returned accumulator's %r is not the initial state" % key)
+        if n == 0:
+            raise AnalysisError('%s: no returning path (unrecognised spelling)' % con)
+        for tok in ('once-per-chunk', 'diff-once', 'state-threaded', 'stores-new-history'):
+            R.ob('ACCRUE-DECAY-SIG', con, tok, tok not in bad, bad.get(tok, ''), ctx.where(fn, fn.node.lineno), None, n)
 
 
 def check_decay_unreachable(ctx, R):
